@@ -814,3 +814,202 @@ Proof.
   apply in_map_iff in Hin. destruct Hin as (o & Ho & Hin). apply filter_In in Hin.
   destruct o; simpl in Ho; try discriminate. tauto.
 Qed.
+
+(** ------------------------------------------------------------------ the current trace call; C11_notice_bijection *)
+
+Definition cur_call (p : phase) : option Z :=
+  match p with PCall c | PLoop c _ | PPrompt c _ | PAfter c => Some c | _ => None end.
+
+Definition is_call_boundary (e : event) : bool :=
+  match e with StartTraceCall _ _ _ _ _ | EndTraceCall _ _ _ => true | _ => false end.
+
+Lemma pcore_cur_inner p e p' : pcore p e = Some p' -> is_call_boundary e = false -> cur_call p' = cur_call p.
+Proof. destruct p as [| |?|? []|? ?|?|], e; simpl; intros H Hb; try discriminate; crush_eqs; auto. Qed.
+
+Lemma pcore_stc p r t c fid info p' : pcore p (StartTraceCall r t c fid info) = Some p' -> p' = PCall c.
+Proof. destruct p as [| |?|? []|? ?|?|]; simpl; intros H; try discriminate. inv H. reflexivity. Qed.
+
+Lemma pcore_etc p r t c p' : pcore p (EndTraceCall r t c) = Some p' -> p' = PIdle.
+Proof. destruct p as [| |?|? []|? ?|?|]; simpl; intros H; try discriminate; crush_eqs; reflexivity. Qed.
+
+Lemma pcore_sp p r t c q txt p' : pcore p (StartPrompt r t c q txt) = Some p' -> cur_call p = Some c.
+Proof. destruct p as [| |?|? []|? ?|?|]; simpl; intros H; try discriminate; crush_eqs; reflexivity. Qed.
+
+Lemma call_payload_app_in c : forall es l, In c (call_starts es) -> call_payload (es ++ l) c = call_payload es c.
+Proof.
+  induction es as [|e es IH]; intros l H; [destruct H|].
+  rewrite call_starts_cons in H. simpl. destruct e; auto.
+  destruct (c0 =? c) eqn:E; auto. apply IH. destruct H as [-> | H]; auto. rewrite Z.eqb_refl in E. discriminate.
+Qed.
+
+Lemma call_payload_app_notin c : forall es l, ~ In c (call_starts es) -> call_payload (es ++ l) c = call_payload l c.
+Proof.
+  induction es as [|e es IH]; intros l H; auto.
+  rewrite call_starts_cons in H. simpl. destruct e; auto.
+  destruct (c0 =? c) eqn:E.
+  - apply Z.eqb_eq in E. subst. exfalso. apply H. left. reflexivity.
+  - apply IH. intros Hin. apply H. right. assumption.
+Qed.
+
+Lemma on_event_calls rn s e t' :
+  dget (pi_call (r_pi (fst (on_event rn s e)))) t' =
+    match e with
+    | StartTraceCall _ t _ fid info => if t' =? t then Some (fid, info) else dget (pi_call (r_pi s)) t'
+    | EndTraceCall _ t _ => if t' =? t then None else dget (pi_call (r_pi s)) t'
+    | _ => dget (pi_call (r_pi s)) t'
+    end /\
+  dget (r_pn (fst (on_event rn s e))) t' =
+    match e with
+    | StartTraceCall _ t _ fid info => if t' =? t then Some (fid, info) else dget (r_pn s) t'
+    | EndTraceCall _ t _ => if t' =? t then None else dget (r_pn s) t'
+    | _ => dget (r_pn s) t'
+    end.
+Proof.
+  destruct e; simpl.
+  - auto.
+  - unfold tn_end, ti_end, pi_end_trace.
+    destruct (existsb (Z.eqb t) (r_tn s)); destruct (dget (r_ti s) t) as [[? ?]|];
+      destruct (existsb (Z.eqb t) (pi_keys (r_pi s))); simpl; auto.
+  - destruct (t' =? t) eqn:E.
+    + apply Z.eqb_eq in E. subst. rewrite !dget_dset_same. auto.
+    + apply Z.eqb_neq in E. rewrite !dget_dset_other by assumption. auto.
+  - unfold pi_end_call, pn_end_call.
+    destruct (dget (pi_call (r_pi s)) t) as [[fid info]|] eqn:Ed; simpl.
+    + destruct (dget (pi_frame (r_pi s)) t) as [f|]; simpl; [destruct (fid =? f); simpl|].
+      all: destruct (t' =? t) eqn:E;
+        [apply Z.eqb_eq in E; subst; rewrite !dget_ddel_same; auto
+        | apply Z.eqb_neq in E; rewrite !dget_ddel_other by assumption; auto].
+    + destruct (t' =? t) eqn:E;
+        [apply Z.eqb_eq in E; subst; rewrite !dget_ddel_same; auto
+        | apply Z.eqb_neq in E; rewrite !dget_ddel_other by assumption; auto].
+  - auto.
+  - auto.
+  - unfold pi_start_prompt, pn_start_prompt.
+    destruct (dget (pi_call (r_pi s)) t) as [[fid info]|]; destruct (dget (r_pn s) t) as [[? ?]|]; simpl; auto.
+  - unfold pi_end_prompt. destruct (dget (pi_prompt (r_pi s)) p); simpl; auto.
+  - auto.
+Qed.
+
+Definition call_inv (r : Z) (es : list event) (g : gstate) : Prop :=
+  forall t,
+    match cur_call (ph g t) with
+    | Some c => In c (call_starts es) /\
+                dget (pi_call (r_pi (state_events r es))) t = Some (call_payload es c) /\
+                dget (r_pn (state_events r es)) t = Some (call_payload es c)
+    | None => dget (pi_call (r_pi (state_events r es))) t = None /\ dget (r_pn (state_events r es)) t = None
+    end.
+
+Lemma wfp_nodup_calls r es : wf_prefix r es = true -> NoDup (call_starts es).
+Proof. intros H. apply wf_prefix_unfold in H. destruct H as (_ & H & _). apply nodupb_spec. assumption. Qed.
+
+Lemma call_invariant r es : wf_prefix r es = true -> exists g, grun r [] es = Some g /\ call_inv r es g.
+Proof.
+  intros Hwf. apply (wfp_ind r (call_inv r)); auto.
+  - intros t. simpl. auto.
+  - clear es Hwf. intros es e g g1 Hwf Hwf' Hg Hs IH t.
+    destruct (gstep_phase _ _ _ _ Hs) as (Hp & Hr & Ho).
+    rewrite state_events_snoc.
+    destruct (on_event_calls r (state_events r es) e t) as [-> ->].
+    pose proof (wfp_nodup_calls _ _ Hwf) as Hnd. rewrite call_starts_app in Hnd.
+    specialize (IH t).
+    assert (Hstable : forall c, cur_call (ph g t) = Some c ->
+              In c (call_starts (es ++ [e])) /\ call_payload (es ++ [e]) c = call_payload es c).
+    { intros c Hc. rewrite Hc in IH. destruct IH as (Hin & _). split.
+      - rewrite call_starts_app. apply in_or_app. auto.
+      - apply call_payload_app_in. assumption. }
+    destruct (Z.eq_dec t (ev_trace e)) as [-> | Hne].
+    + destruct (is_call_boundary e) eqn:Eb.
+      * destruct e; try discriminate; cbn [ev_trace] in *; rewrite Z.eqb_refl.
+        -- apply pcore_stc in Hp. rewrite Hp. cbn [cur_call].
+           assert (Hni : ~ In c (call_starts es)).
+           { intros Hin. apply NoDup_remove_2 in Hnd. apply Hnd. rewrite app_nil_r. assumption. }
+           rewrite (call_payload_app_notin _ _ _ Hni). simpl. rewrite Z.eqb_refl.
+           split; auto. rewrite call_starts_app. apply in_or_app. right. simpl. auto.
+        -- apply pcore_etc in Hp. rewrite Hp. cbn [cur_call]. auto.
+      * rewrite (pcore_cur_inner _ _ _ Hp Eb).
+        assert (Hv : forall A (x y : A), match e with StartTraceCall _ t0 _ _ _ => x | EndTraceCall _ t0 _ => x | _ => y end = y)
+          by (intros; destruct e; try discriminate; reflexivity).
+        destruct e; try discriminate; cbn [ev_trace] in *; destruct (cur_call (ph g _)) as [cx|] eqn:Ec; auto;
+          destruct (Hstable cx ltac:(first [exact Ec | reflexivity])) as [H1 H2]; rewrite H2; tauto.
+    + assert (Hph : ph g1 t = ph g t) by (unfold ph; rewrite (Ho t Hne); reflexivity). rewrite Hph.
+      apply Z.eqb_neq in Hne.
+      assert (Hd1 : match e with
+                    | StartTraceCall _ t0 _ fid info => if t =? t0 then Some (fid, info) else dget (pi_call (r_pi (state_events r es))) t
+                    | EndTraceCall _ t0 _ => if t =? t0 then None else dget (pi_call (r_pi (state_events r es))) t
+                    | _ => dget (pi_call (r_pi (state_events r es))) t
+                    end = dget (pi_call (r_pi (state_events r es))) t)
+        by (destruct e; auto; simpl in Hne; rewrite Hne; reflexivity).
+      assert (Hd2 : match e with
+                    | StartTraceCall _ t0 _ fid info => if t =? t0 then Some (fid, info) else dget (r_pn (state_events r es)) t
+                    | EndTraceCall _ t0 _ => if t =? t0 then None else dget (r_pn (state_events r es)) t
+                    | _ => dget (r_pn (state_events r es)) t
+                    end = dget (r_pn (state_events r es)) t)
+        by (destruct e; auto; simpl in Hne; rewrite Hne; reflexivity).
+      rewrite Hd1, Hd2. destruct (cur_call (ph g t)) as [cx|] eqn:Ec; auto.
+      destruct (Hstable cx ltac:(first [exact Ec | reflexivity])) as [H1 H2]. rewrite H2. tauto.
+Qed.
+
+(** the notices expected from the history: one per prompt start, in order, carrying the
+    location of the trace call that contains the prompt *)
+Definition notices (r : Z) (full es : list event) : list (option value) :=
+  flat_map (fun e => match e with
+                     | StartPrompt _ t c p txt => [Some (VNotice r t p txt (snd (call_payload full c)))]
+                     | _ => []
+                     end) es.
+
+Lemma on_event_notice rn s e :
+  on_topic TPromptNotice (snd (on_event rn s e)) =
+  match e with
+  | StartPrompt _ t _ p txt =>
+      match dget (r_pn s) t with Some (_, info) => [Some (VNotice rn t p txt info)] | None => [] end
+  | _ => []
+  end.
+Proof.
+  destruct e; simpl; auto.
+  - unfold tn_end, ti_end, pi_end_trace.
+    destruct (existsb (Z.eqb t) (r_tn s)); destruct (dget (r_ti s) t) as [[? ?]|];
+      destruct (existsb (Z.eqb t) (pi_keys (r_pi s))); simpl; auto.
+  - unfold pi_end_call, pn_end_call. destruct (dget (pi_call (r_pi s)) t) as [[fid info]|]; simpl; auto.
+    destruct (dget (pi_frame (r_pi s)) t) as [f|]; simpl; auto. destruct (fid =? f); simpl; auto.
+  - unfold pi_start_prompt, pn_start_prompt.
+    destruct (dget (pi_call (r_pi s)) t) as [[fid info]|]; destruct (dget (r_pn s) t) as [[? ?]|]; simpl; auto.
+  - unfold pi_end_prompt. destruct (dget (pi_prompt (r_pi s)) p); simpl; auto.
+Qed.
+
+Lemma flat_map_ext_in' {A B} (f g : A -> list B) l : (forall x, In x l -> f x = g x) -> flat_map f l = flat_map g l.
+Proof.
+  induction l as [|x l IH]; simpl; intros H; auto. rewrite H by auto. rewrite IH; auto.
+Qed.
+
+Definition prompt_calls_known (es : list event) : Prop :=
+  forall r t c p txt, In (StartPrompt r t c p txt) es -> In c (call_starts es).
+
+Theorem notice_bijection r es : wf_prefix r es = true ->
+  on_topic TPromptNotice (pubs_events r es) = notices r es es.
+Proof.
+  intros Hwf.
+  destruct (wfp_ind r (fun es _ => on_topic TPromptNotice (pubs_events r es) = notices r es es /\ prompt_calls_known es))
+    with (es := es) as (g & _ & H & _); auto.
+  - split; [reflexivity | intros ? ? ? ? ? []].
+  - clear es Hwf. intros es e g g1 Hwf Hwf' Hg Hs [IH Hk].
+    destruct (gstep_phase _ _ _ _ Hs) as (Hp & Hr & Ho).
+    destruct (call_invariant _ _ Hwf') as (g' & Hg' & Hc). rewrite Hg in Hg'. injection Hg' as <-.
+    assert (Hk' : prompt_calls_known (es ++ [e])).
+    { intros r0 t c p txt Hin. rewrite call_starts_app. apply in_or_app. apply in_app_or in Hin.
+      destruct Hin as [Hin | [Heq | []]]; [left; eapply Hk; eauto|]. subst e.
+      left. cbn [ev_trace] in Hp. apply pcore_sp in Hp. specialize (Hc t). rewrite Hp in Hc. tauto. }
+    split; auto.
+    rewrite pubs_events_snoc, on_topic_app, IH, on_event_notice. unfold notices. rewrite flat_map_app. f_equal.
+    + apply flat_map_ext_in'. intros x Hx. destruct x; auto.
+      rewrite call_payload_app_in; auto. eapply Hk; eauto.
+    + simpl. rewrite app_nil_r. destruct e; auto.
+      cbn [ev_trace] in Hp. pose proof (pcore_sp _ _ _ _ _ _ _ Hp) as Hcc. specialize (Hc t). rewrite Hcc in Hc.
+      destruct Hc as (Hin & _ & ->). rewrite call_payload_app_in by assumption.
+      destruct (call_payload es c). reflexivity.
+Qed.
+
+Theorem closed_out_prompt_topics r es : wf_prefix r es = true ->
+  (forall t, In t (trace_starts es) ->
+     exists vs, on_topic (TPromptInfoFor t) (pubs_run r es) = map Some vs ++ [None]) /\
+  (exists vs, on_topic TPromptNotice (pubs_run r es) = map Some vs ++ [None]).
+Proof. intros H. split; [exact (prompt_topic_closed r es H) | exact (notice_topic_closed r es)]. Qed.
